@@ -250,6 +250,10 @@ fn minimise_seq(pc: &seq::PropCfg, mut case: Case, sig: &str) -> Case {
 
 /// Dispatch one run of any world
 pub fn run_index(id: &str, tier: &str, seed: u64, idx: u64, stats: &mut Stats, known: &dyn Fn(&Violation) -> bool) -> Option<Finding> {
+    if id == "C03" && idx % 8 == 7 {
+        // "at quiescence after every explored concurrent schedule": the CONC leg of C03
+        return conc::run_index(id, tier, seed, idx, stats, known);
+    }
     match world_of(id) {
         World::Seq => seq_run_index(id, tier, seed, idx, stats, known),
         World::Conc => conc::run_index(id, tier, seed, idx, stats, known),
